@@ -256,6 +256,15 @@ pub(crate) fn memo(value: Option<u32>, verified_at: Revision, d: Durability, cha
     let m = Memo::<CGen>::new(value, verified_at, crate::zalsa_local::verif::revs(d, changed_at, true, crate::zalsa_local::verif::empty_derived()));
     Box::leak(Box::new(m))
 }
+/// As `memo`, fully tracked or untracked.
+pub(crate) fn memo_kind(value: Option<u32>, verified_at: Revision, d: Durability, changed_at: Revision, untracked: bool) -> &'static Memo<CGen> {
+    let origin = if untracked {
+        crate::zalsa_local::OriginAndExtra::derived_untracked(std::iter::empty(), Default::default())
+    } else {
+        crate::zalsa_local::verif::empty_derived()
+    };
+    Box::leak(Box::new(Memo::<CGen>::new(value, verified_at, crate::zalsa_local::verif::revs(d, changed_at, true, origin))))
+}
 fn addr(m: &Memo<CGen>) -> usize {
     m as *const Memo<CGen> as usize
 }
@@ -845,6 +854,58 @@ fn g_fetch_2_fetch_real_memo_table() {
     }
     if !stored || !has_value {
         assert!(vcalls == 0);
+    }
+    vcover!(calls == 1 && stored && !has_value, "an evicted value re-executes with its old memo");
+    vcover!(calls == 0, "reuse path reachable");
+    vcover!();
+    std::mem::forget(w);
+}
+
+//@ob id=G-FETCH-3 kind=C props=C01,C03,C05,C06 timeout=2400 fn=IngredientImpl::fetch,IngredientImpl::refresh_memo,IngredientImpl::fetch_hot,IngredientImpl::fetch_cold,IngredientImpl::get_memo_from_table_for,MemoTableWithTypes::get,MemoTableWithTypes::insert flags=stubs,noreplay
+//@ pre: as G-FETCH-2, and `verify_memo` is the real code too (shallow + deep verification); the stored memo has no edges and is fully tracked (deep verification succeeds) or untracked (deep verification fails), symbolically; only the claim table and `execute` remain stubbed
+//@ post: as G-FETCH-1
+#[cfg(kani)]
+#[kani::proof]
+#[kani::unwind(4)]
+#[kani::stub(crate::sync::max_parallelism, crate::verif_support::one_core)]
+#[kani::stub(crate::function::sync::SyncTable::try_claim, crate::function::sync::verif::stub_try_claim)]
+#[kani::stub(crate::function::sync::ClaimGuard::drop_impl, crate::function::sync::ClaimGuard::verif_release)]
+#[kani::stub(crate::function::IngredientImpl::execute, stub_execute_real)]
+fn g_fetch_3_fetch_real_verification() {
+    let w = world();
+    install_real_table();
+    let cur = w.cur;
+    let stored: bool = vk::any();
+    let has_value: bool = vk::any();
+    let (va, ca) = (vk::any_revision(), vk::any_revision());
+    vk::assume(ca <= va && va <= cur);
+    let d = vk::any_durability();
+    let untracked: bool = vk::any();
+    let old = memo_kind(if has_value { Some(11) } else { None }, va, d, ca, untracked);
+    let new = memo(Some(12), cur, d, cur);
+    if stored {
+        store_real(old);
+    }
+    // SAFETY: single-threaded harness
+    unsafe { EXEC_RESULT = addr(new) };
+    let (z, l) = w.db.zalsas();
+    let v = *w.ing.fetch(&w.db, z, l, w.id);
+    // SAFETY: single-threaded harness
+    let (calls, old_seen, claims, releases, vcalls) = unsafe { (EXEC_CALLS, EXEC_OLD, crate::function::sync::verif::CLAIMS, crate::function::sync::verif::RELEASES, VERIFY_CALLS) };
+    assert!(calls <= 1);
+    assert!(claims == releases);
+    if calls == 1 {
+        assert!(v == 12);
+        assert!(old_seen == if stored { addr(old) } else { 0 });
+        assert!(!(stored && has_value && old.header.verified_at.load() == cur));
+    } else {
+        assert!(stored && has_value && v == 11);
+        assert!(old.header.verified_at.load() == cur);
+    }
+    let _ = vcalls;
+    if stored && has_value && calls == 1 {
+        // re-executed although a value was there: only because it could not be verified
+        assert!(untracked || va < cur);
     }
     vcover!(calls == 1 && stored && !has_value, "an evicted value re-executes with its old memo");
     vcover!(calls == 0, "reuse path reachable");
